@@ -23,6 +23,8 @@ def main():
         if a.replay:
             r = json.load(open(a.replay))
             return mod.replay(ctx, r)
+        if hasattr(mod, 'prepare'):          # translator kernels: regenerate Sio/Generated before building
+            mod.prepare(ctx)
         common.build_driver()
         mod.run(ctx)
         return ctx.finish()
